@@ -1,16 +1,99 @@
 """Per-property claims for MANIFEST.json."""
 ALL = ["C%02d" % i for i in range(1, 21)]
 
+_HELD = " Held on everything generated in the run (counts in the evidence file); a randomised search, not a proof."
+_CLI_NOTE = "Trusted base: the harness (spec builder, observer), rapid's generators, and - where named - the reference model written from the property statements; inputs the model calls unspecified are counted under excluded_not_judged and not judged."
+_DAG_NOTE = "Trusted base: the harness task functions, its model of the graph a construction script describes, and the Go race detector. Interleavings inside the scheduler below the granularity of task entry/return are sampled by the runtime, not enumerated; liveness is decided up to a bounded wait."
+
 META = {
  "C01": {
-  "text": "Randomised search (rapid, seeded, shrinking; native coverage-guided fuzzing in the thorough tier) over definitions x value texts x spellings x modes; every generated value text is compared with a by-construction expectation (byte identity for strings, strconv.Atoi/ParseFloat for numbers, error for non-numbers, flag counts). Held on everything generated; not a proof.",
-  "design_ref": "DESIGN.md section 4, C01",
-  "note": "Trusts strconv as the conversion specification; surroundings are filtered through the reference model (cases it calls unspecified are counted and not judged).",
-  "technique": "property-based testing (rapid) with by-construction oracle + strconv differential; native go fuzzing in thorough",
- },
+  "text": "Property-based search (rapid; native coverage-guided fuzzing in thorough) over definitions x value texts x spellings x modes. Every generated value text is compared with a by-construction expectation: byte identity for strings, strconv.Atoi/ParseFloat for numbers, an error for non-numbers, flag counts, optional-without-value keeps default." + _HELD,
+  "design_ref": "DESIGN.md 4 (C01)", "note": _CLI_NOTE + " strconv is the conversion specification named by the statement.",
+  "technique": "property-based testing (rapid) with by-construction oracle + strconv differential; native go fuzzing in thorough"},
+ "C02": {
+  "text": "Property-based search over (element type, min, max) x occurrences x the token kinds the statement enumerates after the option; values, order, map key/value split, remaining and error-ness compared with the consumption rule transcribed from the statement." + _HELD,
+  "design_ref": "DESIGN.md 4 (C02)", "note": _CLI_NOTE,
+  "technique": "property-based testing (rapid) against a reference model of token consumption; rapid-via-native-fuzz in thorough"},
+ "C03": {
+  "text": "Property-based search over arbitrary argv plans x definitions x 3 modes x 3 unknown modes x require-order. Two oracles: model-free (remaining is a position-wise subsequence of argv: nothing invented, altered, reordered, duplicated) and exact equality with the reference model's list of not-wholly-consumed tokens." + _HELD,
+  "design_ref": "DESIGN.md 4 (C03)", "note": _CLI_NOTE,
+  "technique": "property-based testing (rapid): subsequence/multiplicity invariant + reference-model equality; rapid-via-native-fuzz in thorough"},
+ "C04": {
+  "text": "Metamorphic property-based search: Parse(pre ++ `--` ++ tail) must equal Parse(pre) with tail appended verbatim (same success, option state, warnings, dispatched function), for dangerous contexts before `--` and hostile tails." + _HELD,
+  "design_ref": "DESIGN.md 4 (C04)", "note": _CLI_NOTE + " The model is only used to tell whether a require-order stop precedes the terminator and to exclude `--` standing as a still-missing mandatory value (excepted by the statement).",
+  "technique": "metamorphic property-based testing (rapid): two runs of the real parser related by the statement"},
+ "C05": {
+  "text": "Property-based search over prefix-rich name sets; within each case every prefix of every visible name/alias is tried in every spelling (exhaustive per case). Oracle: the set of names with that prefix computed by the harness: unique => identical to the full-name run and CalledAs = full name; exact name wins; ambiguous => error listing all candidates and no state change." + _HELD,
+  "design_ref": "DESIGN.md 4 (C05)", "note": "Trusted base: harness + rapid; no reference model involved.",
+  "technique": "property-based testing (rapid) with per-case exhaustive prefix enumeration; metamorphic (prefix vs full name) + independent prefix-set oracle"},
+ "C06": {
+  "text": "Property-based search over definitions with alias lists and structured argv plans: run as written vs. run with every occurrence rewritten to the primary name (equal except CalledAs); by-construction Called/CalledAs/default expectations for every option at every level through every key; pointer, Var target and Value() agree." + _HELD,
+  "design_ref": "DESIGN.md 4 (C06)", "note": _CLI_NOTE + " The model only confirms that the planned occurrences are the ones the command line addresses.",
+  "technique": "metamorphic property-based testing (rapid) + by-construction non-interference invariant"},
+ "C07": {
+  "text": "Metamorphic property-based search: a single-dash token vs. its documented rewriting in Normal, Bundling and SingleDash mode, and long-only command lines across the three modes; complete observable outcome compared (values, Called, CalledAs, remaining, warnings, dispatch)." + _HELD,
+  "design_ref": "DESIGN.md 4 (C07)", "note": "Trusted base: harness + rapid; model-free. Only the statement's preconditions are used (bundled leading letters are declared flags; head letters are declared options).",
+  "technique": "metamorphic property-based testing (rapid); rapid-via-native-fuzz in thorough"},
+ "C08": {
+  "text": "Property-based search over argv rich in unknown long/short/bundled options at any position relative to values, command tokens, wrappers and `--`; the reference model decides which tokens are unknown at their level and which is first; Fail => error naming it, Warn => warning for each + token in remaining, Pass => token in remaining, known options still honoured." + _HELD,
+  "design_ref": "DESIGN.md 4 (C08)", "note": _CLI_NOTE,
+  "technique": "property-based testing (rapid) against a reference model; rapid-via-native-fuzz in thorough"},
+ "C09": {
+  "text": "Metamorphic property-based search: with require-order, Parse(pre ++ stop ++ tail) must leave the option state of Parse(pre) on the same definition without require-order and return remaining(pre) ++ stop ++ tail verbatim; whether a candidate is a stop token is established model-free on the real parser without require-order." + _HELD,
+  "design_ref": "DESIGN.md 4 (C09)", "note": "Trusted base: harness + rapid; model-free.",
+  "technique": "metamorphic property-based testing (rapid) against the non-require-order parser"},
+ "C10": {
+  "text": "Property-based search over command trees and argv (options around command tokens, command names as values/positionals/after `--`/after the stop point); instrumented CommandFns record every invocation; exactly one invocation of the command the reference model addresses, with the caller's context, Parse's remaining and the model's option values/Called flags seen through the passed GetOpt." + _HELD,
+  "design_ref": "DESIGN.md 4 (C10)", "note": _CLI_NOTE,
+  "technique": "property-based testing (rapid) with instrumented command functions + reference model of the addressed command"},
+ "C11": {
+  "text": "Property-based search with by-construction expectations: the generator decides which required options of the selected level are supplied (name/alias/prefix/env, at any level along the path) and how help is requested (option, alias, abbreviation, help command, help <topic>, unknown topic); errors.Is(ErrorParsing), custom message, zero invocations, exact help text, ErrorHelpCalled." + _HELD,
+  "design_ref": "DESIGN.md 4 (C11)", "note": _CLI_NOTE + " The model filters plans whose tokens are swallowed as values.",
+  "technique": "property-based testing (rapid) with by-construction oracle and instrumented command functions"},
+ "C12": {
+  "text": "Property-based search plus an exhaustive enumeration of the class product (kind x default x environment text class/pool x CLI form x level) against an independently computed three-way precedence table (value, Called, CalledAs)." + _HELD,
+  "design_ref": "DESIGN.md 4 (C12)", "note": "Trusted base: harness + strconv. For environment text invalid for the type only the value is asserted.",
+  "technique": "property-based testing (rapid) + exhaustive small-scope enumeration against a precedence table"},
+ "C13": {
+  "text": "Controlled-scheduler property-based testing: the harness owns completion order and outcomes (generated, shrinkable, replayable); entry invariants checked at every task entry over random graphs x modes x retries; every completion order enumerated exhaustively for all labelled DAGs up to 4 tasks (5 in thorough, success-only); free-running variant with plain shared slots under the race detector for visibility." + _HELD,
+  "design_ref": "DESIGN.md 5 (C13)", "note": _DAG_NOTE,
+  "technique": "stateful property-based testing with a harness-owned schedule (rapid) + exhaustive small-scope schedule enumeration + race-detector runs"},
+ "C14": {
+  "text": "Same controlled scheduler with generated fault sequences (error / ErrorSkipParents / fail-then-succeed) and cancel points: no dependent of a failed or skipping task starts, nothing not-yet-ready starts after cancel() returned, and Run's result is checked exactly (errors.As *Errors, entry per failed task, exactly one ErrorTaskSkipped entry per never-started task outside ErrorSkipParents cover, nil iff clean). Exhaustive over all DAGs<=4 x outcome assignments x orders." + _HELD,
+  "design_ref": "DESIGN.md 5 (C14)", "note": _DAG_NOTE,
+  "technique": "fault-injecting stateful property-based testing (rapid) + exhaustive small-scope enumeration of outcomes x completion orders"},
+ "C15": {
+  "text": "Same controlled scheduler with wide graphs and binding limits: in-flight count at every entry <= SetMaxParallel(m) / 1 in serial mode; buffered output must arrive as contiguous per-attempt blocks although fragments of concurrent tasks are forced to interleave; free-running read-spin-write counter (serial, m=1) and Tasks shared by two concurrently running graphs under the race detector." + _HELD,
+  "design_ref": "DESIGN.md 5 (C15)", "note": _DAG_NOTE,
+  "technique": "stateful property-based testing with a harness-owned schedule (rapid) + race-detector runs of free-running variants"},
+ "C16": {
+  "text": "Property-based testing over graph-construction call histories (re-adds, duplicate edges, self/back edges) x schedules: Run returns within a bounded wait once everything was released, exactly min(capacity, running+ready) tasks are in flight at every quiescent point (work conservation), cycles are rejected before any task starts with ErrorGraphHasCycle, DepthFirstSort is a valid topological order." + _HELD,
+  "design_ref": "DESIGN.md 5 (C16)", "note": _DAG_NOTE + " A stall is reported only with its signature and after an isolated replay with a 30 s bound.",
+  "technique": "stateful (call-history) property-based testing (rapid) with bounded-wait liveness oracle + exhaustive small-scope enumeration"},
+ "C17": {
+  "text": "Property-based search over command trees x COMP_LINE texts x bash/zsh, in-process through the exit/writer hook: candidate sets compared as sets with an independent computation (names/aliases with the typed prefix at the level reached; subcommands + static + dynamic suggestions; suggested/valid values), sortedness, exit exactly once with 124, no CommandFn, and every offered option/command is accepted by the real parser at that position." + _HELD,
+  "design_ref": "DESIGN.md 4 (C17)", "note": _CLI_NOTE + " Uses the verif hook (exit function, completion writer). Require-order trees and `--` among earlier words are outside the statement.",
+  "technique": "property-based testing (rapid) with set-equality oracle + parser cross-check; rapid-via-native-fuzz in thorough"},
+ "C18": {
+  "text": "Property-based search over trees in which every one of the 12 option kinds occurs: the help text of every level is read structurally (sections via exported headers, entries via indentation) and compared with the definition (each option once with exactly its aliases, required section, default, env, synopsis mention, subcommands with descriptions), and compared byte for byte across Help(), help option, help command, help <topic>." + _HELD,
+  "design_ref": "DESIGN.md 4 (C18)", "note": "Trusted base: harness help reader; accepted default renderings listed in the evidence assumptions.",
+  "technique": "property-based testing (rapid) with a structural reader of the output + cross-path differential"},
+ "C19": {
+  "text": "Robustness search: rapid over valid random definitions x hostile argv/COMP_LINE/environment (random bytes, 64 KiB tokens, 2000-letter bundles, odd dash tokens, malformed ranges, nil argv) x entry points, plus (thorough) native coverage-guided fuzzing on raw bytes against 12 dense definitions and on rapid's bitstream; oracle: no panic, every call within 10 s, failed Parse returns (nil, err), completion leaves through the exit path." + _HELD,
+  "design_ref": "DESIGN.md 4 (C19)", "note": "Trusted base: harness recover()/timer. Int ranges with span > 10^4 are outside the stated domain and discarded (counted). A process time-out is exit 2 (inconclusive) unless an isolated replay confirms it.",
+  "technique": "fuzzing: property-based (rapid) + native coverage-guided go fuzzing with in-target semantic oracle"},
+ "C20": {
+  "text": "Property-based search over definitions with >=2 entries in every table and inputs that make several diagnostics possible; each case executed 12 times in-process on fresh definitions (every Go map has its own seed, every range a random start) and all observable outputs (values, remaining, error text, warnings, help text of every level, bash/zsh completion lists) compared byte for byte." + _HELD,
+  "design_ref": "DESIGN.md 4 (C20)", "note": "Trusted base: harness. Hidden state is sampled by repetition, not controlled.",
+  "technique": "property-based testing (rapid) with repeated-execution differential oracle"},
 }
+
 
 def NOT_APPLICABLE(checks):
     return [{"property_id": p, "reason": "check not built yet in this revision of /verif (work in progress; nothing about the technique prevents it)"} for p in ALL if p not in checks]
 
-NOTES = "All checks are property-based tests / fuzzers over generated inputs with explicit oracles (see DESIGN.md). ./check <ID> <tier> rebuilds the harness against /repo's working tree with -tags verif. Exit 2 means inconclusive infrastructure trouble, never a verdict."
+
+NOTES = ("All checks are property-based tests / fuzzers over generated inputs, call histories, schedules and fault sequences with explicit oracles (see DESIGN.md). "
+         "./check <ID> <tier> rebuilds the harness against /repo's working tree with -tags verif, replays replays/<ID>/*.json first, then searches. "
+         "Exit 1 + VIOLATION line = a failing case was found (stored under work/violations/<ID>/, replayable with ./check --replay); exit 2 = inconclusive infrastructure trouble, never a verdict. "
+         "known_findings.json lists 16 witnesses of 10 genuine defects, all repaired by fix: commits in /repo; none is suppressed.")
